@@ -70,6 +70,7 @@ theorem zrangeIdx_fwd_iff (len : Nat) (hl : 0 < len) (start stop : Int) :
       Code.zrangeDev false len start stop = false := by
   rw [rangeIdx_norm]
   unfold Code.zrangeIdx Code.zrangeDev
+  rw [if_neg (Nat.ne_of_gt hl)]
   have hz := @normIdx_stopOut len stop
   generalize Code.normIdx len start = sa at *
   generalize Code.normIdx len stop = so at *
@@ -95,6 +96,7 @@ theorem zrangeIdx_rev_iff (len : Nat) (hl : 0 < len) (start stop : Int) :
       Code.zrangeDev true len start stop = false := by
   rw [rangeIdx_norm]
   unfold Code.zrangeIdx Code.zrangeDev flipIv
+  rw [if_neg (Nat.ne_of_gt hl)]
   have hz := @normIdx_stopOut len stop
   generalize Code.normIdx len start = sa at *
   generalize Code.normIdx len stop = so at *
